@@ -788,4 +788,231 @@ theorem waitClosed_reachable (c : Cfg) (s : State) (h : (lts c).Reachable s) : W
     (fun s l s' hi hs => ⟨inv_step c s s' l hi.1 hs, waitClosed_step c s s' l hi.1 hi.2 hs⟩) s h
   exact this.2
 
+def spW : SPc → Nat
+  | .next => 4 | .add => 3 | .go => 2 | .wait => 2 | .close => 1 | .fin => 0
+
+def stW : FSt → Nat
+  | .absent => 3 | .recv => 2 | .send _ => 4 | .doneCall => 1 | .finished => 0
+
+def chW (ch : Chan) : Nat := 5 * ch.buf.length + (if ch.closed then 0 else 1)
+
+/-- every step from a state satisfying the invariant strictly decreases this measure -/
+def measure (c : Cfg) (s : State) : Nat :=
+  3 * (c.n - s.k) + spW s.pc + (2 * s.orem + s.obuf + (if s.oclosed then 0 else 1)) +
+  sumTo (fun i => 6 * (s.pend i).length) c.n + sumTo (fun i => chW (s.ch i)) c.n +
+  sumTo (fun i => stW (s.st i)) c.n +
+  (if s.outClosed then 0 else 1) + (if s.seen then 0 else 1) + (if s.panicked then 0 else 1)
+
+theorem measure_advance (c : Cfg) (s : State) (hpc : s.pc = .next) :
+    measure c (advance s) < measure c s := by
+  unfold advance
+  have e1 : spW SPc.next = 4 := rfl
+  have e2 : spW SPc.add = 3 := rfl
+  have e3 : spW SPc.wait = 2 := rfl
+  split
+  · simp only [measure, hpc, e1, e2]; omega
+  · simp only [measure, hpc, e1, e3]; omega
+
+theorem measure_decreases (c : Cfg) (s s' : State) (l : Label) (hi : Inv c s)
+    (hs : step c s l = some s') : measure c s' < measure c s := by
+  obtain ⟨hw, hsl⟩ := hi
+  have hnp := hw.np
+  have eNext : spW SPc.next = 4 := rfl
+  have eAdd : spW SPc.add = 3 := rfl
+  have eGo : spW SPc.go = 2 := rfl
+  have eWait : spW SPc.wait = 2 := rfl
+  have eClose : spW SPc.close = 1 := rfl
+  have eFin : spW SPc.fin = 0 := rfl
+  cases l with
+  | oSend =>
+    simp only [step, hnp, Bool.false_eq_true, if_false] at hs
+    split at hs
+    · next hc =>
+      obtain ⟨_, hrem, _⟩ := hc
+      split at hs
+      · cases hs; simp only [measure, hnp, Bool.false_eq_true, if_false]; omega
+      · split at hs
+        · next hj => cases hs; simp only [measure, hnp, Bool.false_eq_true, if_false, hj.2, eNext, eAdd]; omega
+        · cases hs
+    · cases hs
+  | oClose =>
+    simp only [step, hnp, Bool.false_eq_true, if_false] at hs
+    split at hs
+    · next hc => cases hs; simp only [measure, hnp, Bool.false_eq_true, if_false, hc.2.2, Bool.false_eq_true, if_false, if_true]; omega
+    · cases hs
+  | spNext =>
+    simp only [step, hnp, Bool.false_eq_true, if_false] at hs
+    split at hs
+    · next hc => cases hs; exact measure_advance c s hc.2.1
+    · cases hs
+  | spAdd =>
+    simp only [step, hnp, Bool.false_eq_true, if_false] at hs
+    split at hs
+    · next hpc => cases hs; simp only [measure, hnp, Bool.false_eq_true, if_false, hpc, eAdd, eGo]; omega
+    · cases hs
+  | spGo =>
+    simp only [step, hnp, Bool.false_eq_true, if_false] at hs
+    split at hs
+    · next hpc =>
+      have ho := hw.outer
+      simp only [hpc] at ho
+      simp at ho
+      have hkn : s.k < c.n := by omega
+      have habs : s.st s.k = .absent := (hw.abs s.k).mpr (Nat.le_refl _)
+      have h3 := sumTo_upd_lt stW s.st s.k FSt.recv c.n hkn
+      rw [habs] at h3
+      have e1 : stW FSt.absent = 3 := rfl
+      have e2 : stW FSt.recv = 2 := rfl
+      simp only [e1, e2] at h3
+      have h1 : measure c { s with st := upd s.st s.k .recv, k := s.k + 1, pc := .next, panicked := false } < measure c s := by
+        simp only [measure, hnp, Bool.false_eq_true, if_false, hpc, eNext, eGo]
+        omega
+      split at hs
+      · cases hs; exact h1
+      · cases hs
+        exact Nat.lt_trans (measure_advance c _ rfl) h1
+    · cases hs
+  | spWait =>
+    simp only [step, hnp, Bool.false_eq_true, if_false] at hs
+    split at hs
+    · next hc => cases hs; simp only [measure, hnp, Bool.false_eq_true, if_false, hc.1, eWait, eClose]; omega
+    · cases hs
+  | spClose =>
+    simp only [step, hnp, Bool.false_eq_true, if_false] at hs
+    split at hs
+    · next hpc =>
+      split at hs
+      · cases hs; simp only [measure, hnp, Bool.false_eq_true, if_false, if_true]; omega
+      · next hoc =>
+        have hoc' : s.outClosed = false := by simpa using hoc
+        cases hs
+        simp only [measure, hnp, Bool.false_eq_true, if_false, hpc, hoc', eClose, eFin, Bool.false_eq_true, if_false, if_true]; omega
+    · cases hs
+  | pSend i =>
+    simp only [step, hnp, Bool.false_eq_true, if_false] at hs
+    split at hs
+    · cases hs
+    · next hnle =>
+      have hin : i < c.n := by omega
+      split at hs
+      · cases hs
+      · next v rest hpe =>
+        have h1 := sumTo_upd_lt (fun l : List Nat => 6 * l.length) s.pend i rest c.n hin
+        simp only [hpe, List.length_cons] at h1
+        split at hs
+        · cases hs
+        · split at hs
+          · cases hs
+            have h2 := sumTo_upd_lt chW s.ch i { s.ch i with buf := (s.ch i).buf ++ [v] } c.n hin
+            simp only [chW, List.length_append, List.length_cons, List.length_nil] at h2
+            simp only [measure, hnp, Bool.false_eq_true, if_false, chW]
+            omega
+          · split at hs
+            · next hj =>
+              cases hs
+              have h3 := sumTo_upd_lt stW s.st i (FSt.send v) c.n hin
+              rw [hj.2] at h3
+              have e1 : stW FSt.recv = 2 := rfl
+              have e2 : stW (FSt.send v) = 4 := rfl
+              simp only [e1, e2] at h3
+              simp only [measure, hnp, Bool.false_eq_true, if_false]
+              omega
+            · cases hs
+  | pClose i =>
+    simp only [step, hnp, Bool.false_eq_true, if_false] at hs
+    split at hs
+    · cases hs
+    · next hnle =>
+      have hin : i < c.n := by omega
+      split at hs
+      · next hc =>
+        cases hs
+        have h2 := sumTo_upd_lt chW s.ch i { s.ch i with closed := true } c.n hin
+        simp only [chW, hc.2, Bool.false_eq_true, if_false, if_true] at h2
+        simp only [measure, hnp, Bool.false_eq_true, if_false, chW]
+        omega
+      · cases hs
+  | fRecv i =>
+    simp only [step, hnp, Bool.false_eq_true, if_false] at hs
+    split at hs
+    · cases hs
+    · next hnle =>
+      have hin : i < c.n := by omega
+      split at hs
+      · next hst =>
+        have e1 : stW FSt.recv = 2 := rfl
+        split at hs
+        · next v rest hb =>
+          cases hs
+          have h2 := sumTo_upd_lt chW s.ch i { s.ch i with buf := rest } c.n hin
+          simp only [chW, hb, List.length_cons] at h2
+          have h3 := sumTo_upd_lt stW s.st i (FSt.send v) c.n hin
+          rw [hst] at h3
+          have e2 : stW (FSt.send v) = 4 := rfl
+          simp only [e1, e2] at h3
+          simp only [measure, hnp, Bool.false_eq_true, if_false, chW]
+          omega
+        · split at hs
+          · cases hs
+            have h3 := sumTo_upd_lt stW s.st i FSt.doneCall c.n hin
+            rw [hst] at h3
+            have e2 : stW FSt.doneCall = 1 := rfl
+            simp only [e1, e2] at h3
+            simp only [measure, hnp, Bool.false_eq_true, if_false]
+            omega
+          · cases hs
+      · cases hs
+  | fSend i =>
+    simp only [step, hnp, Bool.false_eq_true, if_false] at hs
+    split at hs
+    · cases hs
+    · split at hs
+      · split at hs
+        · cases hs; simp only [measure, hnp, Bool.false_eq_true, if_false, if_true]; omega
+        · cases hs
+      · cases hs
+  | fDone i =>
+    simp only [step, hnp, Bool.false_eq_true, if_false] at hs
+    split at hs
+    · cases hs
+    · next hnle =>
+      have hin : i < c.n := by omega
+      split at hs
+      · next hst =>
+        split at hs
+        · cases hs; simp only [measure, hnp, Bool.false_eq_true, if_false, if_true]; omega
+        · cases hs
+          have h3 := sumTo_upd_lt stW s.st i FSt.finished c.n hin
+          rw [hst] at h3
+          have e1 : stW FSt.doneCall = 1 := rfl
+          have e2 : stW FSt.finished = 0 := rfl
+          simp only [e1, e2] at h3
+          simp only [measure, hnp, Bool.false_eq_true, if_false]
+          omega
+      · cases hs
+  | cTake i =>
+    simp only [step, hnp, Bool.false_eq_true, if_false] at hs
+    split at hs
+    · cases hs
+    · next hnle =>
+      have hin : i < c.n := by omega
+      split at hs
+      · cases hs
+      · split at hs
+        · next v hst =>
+          cases hs
+          have h3 := sumTo_upd_lt stW s.st i FSt.recv c.n hin
+          rw [hst] at h3
+          have e1 : stW FSt.recv = 2 := rfl
+          have e2 : stW (FSt.send v) = 4 := rfl
+          simp only [e1, e2] at h3
+          simp only [measure, hnp, Bool.false_eq_true, if_false]
+          omega
+        · cases hs
+  | cSeeClose =>
+    simp only [step, hnp, Bool.false_eq_true, if_false] at hs
+    split at hs
+    · next hc => cases hs; simp only [measure, hnp, Bool.false_eq_true, if_false, hc.1, Bool.false_eq_true, if_false, if_true]; omega
+    · cases hs
+
 end Goderive.K.JoinWG
